@@ -23,6 +23,7 @@ import (
 	"sort"
 	"strings"
 	"sync"
+	"sync/atomic"
 	"time"
 
 	"github.com/marekgalovic/anndb/index"
@@ -797,6 +798,8 @@ func runClusterSearch(c *Ctx, r *Rng, shape [3]int) {
 			o := append([]uint64{n}, without(cl.ids, n)...)
 			trial(entry, q, 5, o, map[uint64]error{n: errStreamFault}, "fail-first")
 			o2 := append(without(cl.ids, n), n)
+			// the failing node answers last: if anything closes a fan-in channel once the workers are done, the
+			// collector's last select sees a ready (closed) result channel next to the error and picks at random
 			trial(entry, q, 5, o2, map[uint64]error{n: errStreamFault}, "fail-last")
 			// the errors a peer (or the gRPC layer in front of it) hands back while the caller's
 			// own context is alive: the peer shutting down, the peer's own deadline, a closing
@@ -823,6 +826,43 @@ func runClusterSearch(c *Ctx, r *Rng, shape [3]int) {
 		}
 	}
 	c.Count("search:stress")
+	// the same without gates but with one node failing: the workers finish within microseconds of each
+	// other, so the collector often finds several channels ready at once; whatever it picks, a search
+	// with a failed node must end in an error
+	if len(cl.ids) > 1 {
+		bad := 0
+		first := ""
+		for i := 0; i < c.Pick(1500, 12000) && bad == 0; i++ {
+			entry := cl.ids[i%len(cl.ids)]
+			failing := cl.ids[(i/len(cl.ids))%len(cl.ids)]
+			sctx, sno := newTrial()
+			var consulted int32
+			cl.mu.Lock()
+			cl.searchHook = func(hctx context.Context, from, to uint64, req *pb.SearchPartitionsRequest) error {
+				if from != entry || trialOf(hctx) != sno {
+					return nil
+				}
+				if to == failing {
+					atomic.AddInt32(&consulted, 1)
+					return errStreamFault
+				}
+				return nil
+			}
+			cl.mu.Unlock()
+			res, err := cl.dataset(entry, dsId).Search(sctx, q, 5)
+			if err == nil && atomic.LoadInt32(&consulted) > 0 {
+				bad++
+				first = fmt.Sprintf("repetition %d: node %d failed its part of a search entered at node %d, which returned %d items with success", i, failing, entry, len(res))
+			}
+		}
+		cl.mu.Lock()
+		cl.searchHook = nil
+		cl.mu.Unlock()
+		c.Count("search:stress-failing-node")
+		if bad > 0 {
+			c.Violate("C09", "C09/partial-success", "ungated stress with one failing node: "+first, c.History())
+		}
+	}
 
 	// ---- size (C17): each partition counted once, failures are loud
 	sizes := make([]int, P)
